@@ -57,6 +57,20 @@ def main():
                 ProtocolCodeGenerator(Path(xml_root + ".other")).generate(Path(out_root + ".first"))
                 del writes[:]
                 ProtocolCodeGenerator(Path(xml_root)).generate(Path(out_root))
+            elif mode == "same-instance-edited":
+                # one generator instance, the specification edited on disk between two runs (types moved to other
+                # directories): the second run must not remember anything of the first
+                import shutil
+
+                edit = xml_root + ".edit"
+                shutil.copytree(xml_root + ".other", edit)
+                g = ProtocolCodeGenerator(Path(edit))
+                g.generate(Path(out_root + ".first"))
+                shutil.rmtree(edit)
+                shutil.copytree(xml_root, edit)
+                del writes[:]
+                g.generate(Path(out_root))
+                shutil.rmtree(edit)
             elif mode == "relative-roots":
                 # both roots spelled relative to the working directory
                 os.chdir(os.path.dirname(xml_root))
